@@ -35,6 +35,7 @@ type plan struct {
 	echPos     int
 	lastSender *hpkex.Sender // the context record() sealed with (first hellos)
 	sender     *hpkex.Sender // set for a retried hello: sealed under the first hello's context with an empty enc
+	emptyInner bool // the sealed plaintext is empty
 	// outer-level faults applied after sealing
 	post func(h *tlswire.ClientHello)
 }
@@ -96,6 +97,9 @@ func (p *plan) record() []byte {
 		enc.Exts = exts
 	}
 	encoded := append(enc.Body(), p.pad...)
+	if p.emptyInner {
+		encoded = nil // an authentic payload that opens to nothing at all
+	}
 	outer := p.outer.Clone()
 	if p.post != nil {
 		// outer-level faults are part of the AAD: apply before sealing when they do not touch the ECH extension
@@ -211,6 +215,21 @@ func faults() []fault {
 			// the inner hello carries a complete, well-formed OUTER-type ECH extension (a nested ECH offer) instead of the inner marker
 			e := tlswire.ECHOuter(1, aeads[rng.IntN(3)], byte(rng.IntN(256)), hellogen.Bytes(rng, 32), hellogen.Bytes(rng, 40+rng.IntN(100)))
 			return "nested-outer-ech", replaceExt(p.inner, tlswire.ExtECH, &e)
+		}},
+		{rule: "R5:authentic-payload-without-any-inner-hello", allowed: illegalOrDecode, needKey: true, apply: func(rng *mrand.Rand, p *plan) (string, bool) {
+			// the payload opens under the held key (tag over the outer hello) but its plaintext has no bytes:
+			// no inner hello, hence no inner-type ECH extension, no TLS 1.3 offer
+			p.emptyInner = true
+			return "plaintext=0", true
+		}},
+		{rule: "R5:inner-ech-marker-with-extra-bytes", allowed: illegalOrDecode, needKey: true, apply: func(rng *mrand.Rand, p *plan) (string, bool) {
+			// ECHClientHello of type inner is the type byte and nothing else ("case inner: Empty")
+			extra := hellogen.Bytes(rng, 1+rng.IntN(6))
+			if rng.IntN(2) == 0 {
+				extra = make([]byte, 1+rng.IntN(3))
+			}
+			e := tlswire.Ext{Type: tlswire.ExtECH, Data: append([]byte{1}, extra...)}
+			return fmt.Sprintf("extra=%x", extra), replaceExt(p.inner, tlswire.ExtECH, &e)
 		}},
 		{rule: "R6:inner-not-tls13", allowed: illegal, needKey: true, apply: func(rng *mrand.Rand, p *plan) (string, bool) {
 			i := p.inner.Find(tlswire.ExtSupportedVersions)
